@@ -343,6 +343,16 @@ func ruleSealSame(p *Prog, r *Reporter) {
 					if !isSt {
 						continue
 					}
+					// blocks[i] = &copied, with copied := *old
+					if al, isAl := st.Val.(*ssa.Alloc); isAl {
+						if ia, isIA := st.Addr.(*ssa.IndexAddr); isIA && ia.X == ssa.Value(mk) && ia.Index == ssa.Value(rl.incr) {
+							for _, s2 := range storesDirect(al) {
+								if ld, isLd := s2.Val.(*ssa.UnOp); isLd && ld.Op == token.MUL && rl.isElem(ld.X) {
+									okBlocks = true
+								}
+							}
+						}
+					}
 					// *blocks[i] = *old
 					if ld, isLd := st.Val.(*ssa.UnOp); isLd && ld.Op == token.MUL && rl.isElem(ld.X) {
 						if dl, isDl := st.Addr.(*ssa.UnOp); isDl {
